@@ -97,7 +97,9 @@ Definition pc_ok (cs:list conn) (kp:list nat) (p:pc) : Prop :=
   | _ => True
   end.
 
-Record InvP (cs:list conn) (bl:list nat) (nr:Z) (kp rg:list nat) (pcl:bool) (p:pc) : Prop := mkInv {
+Definition timedish (v:cst) : bool := match v with CTimed | CKeep | CExpiring => true | _ => false end.
+
+Record InvP (ka:Z) (cs:list conn) (bl:list nat) (nr:Z) (kp rg:list nat) (pcl:bool) (p:pc) : Prop := mkInv {
   i_acct : nr = cnt cs;
   i_closes : forall c x, nth_error cs c = Some x -> closes x = match st x with CClosed => 1%nat | _ => 0%nat end;
   i_keep : pcl = false -> forall c, In c kp -> stl cs c = Some CKeep;
@@ -109,11 +111,12 @@ Record InvP (cs:list conn) (bl:list nat) (nr:Z) (kp rg:list nat) (pcl:bool) (p:p
   i_uninit : forall c x, nth_error cs c = Some x -> inited x = false -> st x = CPending \/ st x = CNew;
   i_exp : forall c, stl cs c = Some CExpiring -> exists now, p = MUnreg now c;
   i_pc : pc_ok cs kp p;
-  i_pclosed : pcl = true -> p = MFinal \/ p = MStopped
+  i_pclosed : pcl = true -> p = MFinal \/ p = MStopped;
+  i_tmo : forall c x, nth_error cs c = Some x -> timedish (st x) = true -> tmo x = since x + ka
 }.
 
-Definition Inv (s:state) : Prop :=
-  InvP (conns s) (backlog s) (nr_conns s) (keep s) (regd s) (pclosed s) (mpc s).
+Definition Inv (g:cfg) (s:state) : Prop :=
+  InvP (keepalive g) (conns s) (backlog s) (nr_conns s) (keep s) (regd s) (pclosed s) (mpc s).
 
 Ltac eqcase a b := destruct (Nat.eqb_spec a b); [subst|].
 
@@ -141,12 +144,14 @@ Lemma cnt_upd : forall cs c f x, nth_error cs c = Some x ->
 Proof. intros. unfold cnt. apply (count_upd _ (fun x => is_counted (st x))). auto. Qed.
 
 (* a connection changes but keeps its state, or moves between the "being handled" states *)
-Lemma invp_upd_gen : forall cs bl nr kp rg pcl p c x f, InvP cs bl nr kp rg pcl p -> nth_error cs c = Some x ->
+Lemma invp_upd_gen : forall ka cs bl nr kp rg pcl p c x f, InvP ka cs bl nr kp rg pcl p -> nth_error cs c = Some x ->
   (st (f x) = st x \/ (is_handling (st x) = true /\ is_handling (st (f x)) = true)) ->
   closes (f x) = closes x -> inited (f x) = inited x ->
-  InvP (upd c f cs) bl nr kp rg pcl p.
+  (timedish (st (f x)) = false \/ tmo (f x) = since (f x) + ka \/
+   (tmo (f x) = tmo x /\ since (f x) = since x /\ st (f x) = st x)) ->
+  InvP ka (upd c f cs) bl nr kp rg pcl p.
 Proof.
-  intros cs bl nr kp rg pcl p c x f [Hacct Hcl Hkeep Hknd Hbl Hblnd Hreg Hregnd Hun Hexp Hpc Hpcl] Hx Hst Hclo Hini.
+  intros ka cs bl nr kp rg pcl p c x f [Hacct Hcl Hkeep Hknd Hbl Hblnd Hreg Hregnd Hun Hexp Hpc Hpcl Htm] Hx Hst Hclo Hini Hnt.
   assert (Hcnt : is_counted (st (f x)) = is_counted (st x)).
   { destruct Hst as [E|[E1 E2]]. rewrite E; auto. destruct (st x); destruct (st (f x)); simpl in *; congruence. }
   assert (Hany : forall c' v, is_handling v = false -> stl cs c' = Some v -> stl (upd c f cs) c' = Some v).
@@ -180,13 +185,17 @@ Proof.
   - unfold pc_ok in *. destruct p; auto; try (apply Hany; auto; fail).
     destruct Hpc. split; auto.
   - auto.
+  - intros c' x' H Ht. eqcase c c'.
+    + rewrite nth_upd_eq, Hx in H. simpl in H. inversion H; subst.
+      destruct Hnt as [E|[E|[E1 [E2 E3]]]]; try congruence. rewrite E1, E2. apply (Htm _ _ Hx). congruence.
+    + rewrite nth_upd_ne in H; eauto.
 Qed.
 
 (* finish_request / cancel: decrement and close a connection that was being handled *)
-Lemma invp_close : forall cs bl nr kp rg pcl p c x, InvP cs bl nr kp rg pcl p -> nth_error cs c = Some x ->
-  is_handling (st x) = true -> InvP (upd c close_conn cs) bl (nr - 1) kp rg pcl p.
+Lemma invp_close : forall ka cs bl nr kp rg pcl p c x, InvP ka cs bl nr kp rg pcl p -> nth_error cs c = Some x ->
+  is_handling (st x) = true -> InvP ka (upd c close_conn cs) bl (nr - 1) kp rg pcl p.
 Proof.
-  intros cs bl nr kp rg pcl p c x [Hacct Hcl Hkeep Hknd Hbl Hblnd Hreg Hregnd Hun Hexp Hpc Hpcl] Hx Hh.
+  intros ka cs bl nr kp rg pcl p c x [Hacct Hcl Hkeep Hknd Hbl Hblnd Hreg Hregnd Hun Hexp Hpc Hpcl Htm] Hx Hh.
   assert (Hany : forall c' v, is_handling v = false -> stl cs c' = Some v -> stl (upd c close_conn cs) c' = Some v).
   { intros. eapply stl_other; eauto. intro. subst. congruence. }
   constructor.
@@ -213,13 +222,16 @@ Proof.
   - unfold pc_ok in *. destruct p; auto; try (apply Hany; auto; fail).
     destruct Hpc. split; auto.
   - auto.
+  - intros c' x' H Ht. eqcase c c'.
+    + rewrite nth_upd_eq, Hx in H. simpl in H. inversion H; subst. simpl in Ht. try discriminate.
+    + rewrite nth_upd_ne in H; eauto.
 Qed.
 
 (* the lock block of finish_request: into _keep and registered *)
-Lemma invp_finlock : forall cs bl nr kp rg p c x, InvP cs bl nr kp rg false p -> nth_error cs c = Some x ->
-  st x = CTimed -> InvP (upd c (set_st CKeep) cs) bl nr (kp ++ [c]) (rg ++ [c]) false p.
+Lemma invp_finlock : forall ka cs bl nr kp rg p c x, InvP ka cs bl nr kp rg false p -> nth_error cs c = Some x ->
+  st x = CTimed -> InvP ka (upd c (set_st CKeep) cs) bl nr (kp ++ [c]) (rg ++ [c]) false p.
 Proof.
-  intros cs bl nr kp rg p c x [Hacct Hcl Hkeep Hknd Hbl Hblnd Hreg Hregnd Hun Hexp Hpc Hpcl] Hx Hst.
+  intros ka cs bl nr kp rg p c x [Hacct Hcl Hkeep Hknd Hbl Hblnd Hreg Hregnd Hun Hexp Hpc Hpcl Htm] Hx Hst.
   assert (Hany : forall c' v, is_handling v = false -> stl cs c' = Some v ->
                  stl (upd c (set_st CKeep) cs) c' = Some v).
   { intros. eapply stl_other; eauto. intro. subst. rewrite Hst in H. discriminate. }
@@ -258,19 +270,22 @@ Proof.
     simpl in Hin. destruct Hin; try contradiction. subst.
     rewrite (stl_some _ _ _ Hx) in H. congruence.
   - auto.
+  - intros c' x' H Ht. eqcase c c'.
+    + rewrite nth_upd_eq, Hx in H. simpl in H. inversion H; subst. simpl. apply (Htm _ _ Hx). rewrite Hst. auto.
+    + rewrite nth_upd_ne in H; eauto.
 Qed.
 
-Lemma invp_pcl_false : forall cs bl nr kp rg pcl p, InvP cs bl nr kp rg pcl p ->
+Lemma invp_pcl_false : forall ka cs bl nr kp rg pcl p, InvP ka cs bl nr kp rg pcl p ->
   p <> MFinal -> p <> MStopped -> pcl = false.
-Proof. intros. destruct pcl; auto. destruct (i_pclosed _ _ _ _ _ _ _ H eq_refl); contradiction. Qed.
+Proof. intros. destruct pcl; auto. destruct (i_pclosed _ _ _ _ _ _ _ _ H eq_refl); contradiction. Qed.
 
 Definition not_unreg (p:pc) : Prop := forall now c, p <> MUnreg now c.
 
 (* the main thread moves on; no connection is in the middle of being reaped *)
-Lemma invp_pc : forall cs bl nr kp rg pcl p p', InvP cs bl nr kp rg pcl p -> not_unreg p ->
-  pc_ok cs kp p' -> (pcl = true -> p' = MFinal \/ p' = MStopped) -> InvP cs bl nr kp rg pcl p'.
+Lemma invp_pc : forall ka cs bl nr kp rg pcl p p', InvP ka cs bl nr kp rg pcl p -> not_unreg p ->
+  pc_ok cs kp p' -> (pcl = true -> p' = MFinal \/ p' = MStopped) -> InvP ka cs bl nr kp rg pcl p'.
 Proof.
-  intros cs bl nr kp rg pcl p p' [Hacct Hcl Hkeep Hknd Hbl Hblnd Hreg Hregnd Hun Hexp Hpc Hpcl] Hnu Hok Hp.
+  intros ka cs bl nr kp rg pcl p p' [Hacct Hcl Hkeep Hknd Hbl Hblnd Hreg Hregnd Hun Hexp Hpc Hpcl Htm] Hnu Hok Hp.
   constructor; auto.
   intros c H. destruct (Hexp c H) as [now E]. exfalso. eapply Hnu; eauto.
 Qed.
@@ -282,12 +297,12 @@ Lemma dispatch_plain : forall r, not_unreg (dispatch r) /\ dispatch r <> MFinal 
 Proof. intros. unfold not_unreg. destruct r as [|[l|c] r]; simpl; repeat split; intros; discriminate. Qed.
 
 (* accept: the first connection of the backlog becomes New and is counted *)
-Lemma invp_accept : forall cs bl nr kp rg pcl r0 c r, InvP cs (c :: bl) nr kp rg pcl (MAcc r0) ->
-  InvP (upd c (set_st CNew) cs) bl (nr + 1) kp rg pcl (MAccReg c r).
+Lemma invp_accept : forall ka cs bl nr kp rg pcl r0 c r, InvP ka cs (c :: bl) nr kp rg pcl (MAcc r0) ->
+  InvP ka (upd c (set_st CNew) cs) bl (nr + 1) kp rg pcl (MAccReg c r).
 Proof.
-  intros cs bl nr kp rg pcl r0 c r H.
+  intros ka cs bl nr kp rg pcl r0 c r H.
   assert (Hpf : pcl = false) by (eapply invp_pcl_false; eauto; discriminate).
-  destruct H as [Hacct Hcl Hkeep Hknd Hbl Hblnd Hreg Hregnd Hun Hexp Hpc Hpcl].
+  destruct H as [Hacct Hcl Hkeep Hknd Hbl Hblnd Hreg Hregnd Hun Hexp Hpc Hpcl Htm].
   assert (Hc : stl cs c = Some CPending) by (apply Hbl; left; auto).
   unfold stl in Hc. destruct (nth_error cs c) as [x|] eqn:Hx; try discriminate. simpl in Hc. inversion Hc as [Hst].
   assert (Hany : forall c' v, v <> CPending -> stl cs c' = Some v -> stl (upd c (set_st CNew) cs) c' = Some v).
@@ -315,14 +330,17 @@ Proof.
     + destruct (Hexp c' H). discriminate.
   - simpl. rewrite stl_upd, Nat.eqb_refl, Hx. auto.
   - intro. congruence.
+  - intros c' x' H Ht. eqcase c c'.
+    + rewrite nth_upd_eq, Hx in H. simpl in H. inversion H; subst. simpl in Ht. try discriminate.
+    + rewrite nth_upd_ne in H; eauto.
 Qed.
 
-Lemma invp_accreg : forall cs bl nr kp rg pcl c r, InvP cs bl nr kp rg pcl (MAccReg c r) -> ~ In c rg ->
-  InvP cs bl nr kp (rg ++ [c]) pcl (dispatch r).
+Lemma invp_accreg : forall ka cs bl nr kp rg pcl c r, InvP ka cs bl nr kp rg pcl (MAccReg c r) -> ~ In c rg ->
+  InvP ka cs bl nr kp (rg ++ [c]) pcl (dispatch r).
 Proof.
-  intros cs bl nr kp rg pcl c r H Hn.
+  intros ka cs bl nr kp rg pcl c r H Hn.
   assert (Hpf : pcl = false) by (eapply invp_pcl_false; eauto; discriminate).
-  destruct H as [Hacct Hcl Hkeep Hknd Hbl Hblnd Hreg Hregnd Hun Hexp Hpc Hpcl].
+  destruct H as [Hacct Hcl Hkeep Hknd Hbl Hblnd Hreg Hregnd Hun Hexp Hpc Hpcl Htm].
   constructor; auto.
   - intros c' Hin. apply in_app_or in Hin. destruct Hin as [Hin|Hin]; auto.
     simpl in Hin. destruct Hin; try contradiction. subst. left. exact Hpc.
@@ -333,12 +351,12 @@ Proof.
 Qed.
 
 (* on_client_socket_readable, "race" return: only the registration goes *)
-Lemma invp_rd_return : forall cs bl nr kp rg pcl c r, InvP cs bl nr kp rg pcl (MRd c r) ->
-  InvP cs bl nr kp (remove1 c rg) pcl (dispatch r).
+Lemma invp_rd_return : forall ka cs bl nr kp rg pcl c r, InvP ka cs bl nr kp rg pcl (MRd c r) ->
+  InvP ka cs bl nr kp (remove1 c rg) pcl (dispatch r).
 Proof.
-  intros cs bl nr kp rg pcl c r H.
+  intros ka cs bl nr kp rg pcl c r H.
   assert (Hpf : pcl = false) by (eapply invp_pcl_false; eauto; discriminate).
-  destruct H as [Hacct Hcl Hkeep Hknd Hbl Hblnd Hreg Hregnd Hun Hexp Hpc Hpcl].
+  destruct H as [Hacct Hcl Hkeep Hknd Hbl Hblnd Hreg Hregnd Hun Hexp Hpc Hpcl Htm].
   constructor; auto.
   - intros c' Hin. apply Hreg. eapply remove1_In; eauto.
   - apply remove1_nodup; auto.
@@ -348,14 +366,14 @@ Proof.
 Qed.
 
 (* on_client_socket_readable + enqueue_req *)
-Lemma invp_rd : forall cs bl nr kp rg pcl c r x, InvP cs bl nr kp rg pcl (MRd c r) ->
+Lemma invp_rd : forall ka cs bl nr kp rg pcl c r x, InvP ka cs bl nr kp rg pcl (MRd c r) ->
   In c rg -> nth_error cs c = Some x -> (inited x = true -> In c kp) ->
-  InvP (upd c (fun y => set_st CQueued (set_inited y)) cs) bl nr
+  InvP ka (upd c (fun y => set_st CQueued (set_inited y)) cs) bl nr
        (if inited x then remove1 c kp else kp) (remove1 c rg) pcl (dispatch r).
 Proof.
-  intros cs bl nr kp rg pcl c r x H Hin Hx Hik.
+  intros ka cs bl nr kp rg pcl c r x H Hin Hx Hik.
   assert (Hpf : pcl = false) by (eapply invp_pcl_false; eauto; discriminate).
-  destruct H as [Hacct Hcl Hkeep Hknd Hbl Hblnd Hreg Hregnd Hun Hexp Hpc Hpcl].
+  destruct H as [Hacct Hcl Hkeep Hknd Hbl Hblnd Hreg Hregnd Hun Hexp Hpc Hpcl Htm].
   set (f := fun y => set_st CQueued (set_inited y)).
   assert (Hst : st x = CNew \/ st x = CKeep).
   { destruct (Hreg c Hin) as [E|[E|E]]; rewrite (stl_some _ _ _ Hx) in E; inversion E; auto.
@@ -390,16 +408,19 @@ Proof.
     + destruct (Hexp c' H). discriminate.
   - apply pc_ok_dispatch.
   - intro. congruence.
+  - intros c' x' H Ht. eqcase c c'.
+    + rewrite nth_upd_eq, Hx in H. simpl in H. inversion H; subst. simpl in Ht. try discriminate.
+    + rewrite nth_upd_ne in H; eauto.
 Qed.
 
 (* murder_keepalived: popleft + compare: expired *)
-Lemma invp_pop_expired : forall cs bl nr kp rg pcl now c x, InvP cs bl nr (c :: kp) rg pcl (MPop now) ->
+Lemma invp_pop_expired : forall ka cs bl nr kp rg pcl now c x, InvP ka cs bl nr (c :: kp) rg pcl (MPop now) ->
   nth_error cs c = Some x ->
-  InvP (upd c (set_st CExpiring) cs) bl (nr - 1) kp rg pcl (MUnreg now c).
+  InvP ka (upd c (set_st CExpiring) cs) bl (nr - 1) kp rg pcl (MUnreg now c).
 Proof.
-  intros cs bl nr kp rg pcl now c x H Hx.
+  intros ka cs bl nr kp rg pcl now c x H Hx.
   assert (Hpf : pcl = false) by (eapply invp_pcl_false; eauto; discriminate).
-  destruct H as [Hacct Hcl Hkeep Hknd Hbl Hblnd Hreg Hregnd Hun Hexp Hpc Hpcl].
+  destruct H as [Hacct Hcl Hkeep Hknd Hbl Hblnd Hreg Hregnd Hun Hexp Hpc Hpcl Htm].
   assert (Hst : st x = CKeep).
   { assert (E : stl cs c = Some CKeep) by (apply Hkeep; auto; left; auto).
     rewrite (stl_some _ _ _ Hx) in E. congruence. }
@@ -428,15 +449,18 @@ Proof.
     rewrite stl_upd in H. destruct (Nat.eqb_spec c c'); try congruence. destruct (Hexp c' H). discriminate.
   - simpl. auto.
   - intro. congruence.
+  - intros c' x' H Ht. eqcase c c'.
+    + rewrite nth_upd_eq, Hx in H. simpl in H. inversion H; subst. simpl. apply (Htm _ _ Hx). rewrite Hst. auto.
+    + rewrite nth_upd_ne in H; eauto.
 Qed.
 
 (* ... not expired: the connection is out of the deque until it is put back *)
-Lemma invp_pop_keep : forall cs bl nr kp rg pcl now c, InvP cs bl nr (c :: kp) rg pcl (MPop now) ->
-  InvP cs bl nr kp rg pcl (MPutback c).
+Lemma invp_pop_keep : forall ka cs bl nr kp rg pcl now c, InvP ka cs bl nr (c :: kp) rg pcl (MPop now) ->
+  InvP ka cs bl nr kp rg pcl (MPutback c).
 Proof.
-  intros cs bl nr kp rg pcl now c H.
+  intros ka cs bl nr kp rg pcl now c H.
   assert (Hpf : pcl = false) by (eapply invp_pcl_false; eauto; discriminate).
-  destruct H as [Hacct Hcl Hkeep Hknd Hbl Hblnd Hreg Hregnd Hun Hexp Hpc Hpcl].
+  destruct H as [Hacct Hcl Hkeep Hknd Hbl Hblnd Hreg Hregnd Hun Hexp Hpc Hpcl Htm].
   assert (Hnd : NoDup (c :: kp)) by auto. inversion Hnd as [|? ? Hnin Hnd']; subst.
   constructor; auto.
   - intros _ c' H. apply Hkeep; auto. right; auto.
@@ -445,13 +469,13 @@ Proof.
   - intro. congruence.
 Qed.
 
-Lemma invp_putback : forall cs bl nr kp rg pcl c p', InvP cs bl nr kp rg pcl (MPutback c) ->
+Lemma invp_putback : forall ka cs bl nr kp rg pcl c p', InvP ka cs bl nr kp rg pcl (MPutback c) ->
   pc_ok cs (c :: kp) p' -> (pcl = true -> p' = MFinal \/ p' = MStopped) -> not_unreg p' ->
-  InvP cs bl nr (c :: kp) rg pcl p'.
+  InvP ka cs bl nr (c :: kp) rg pcl p'.
 Proof.
-  intros cs bl nr kp rg pcl c p' H Hok Hp Hnu.
+  intros ka cs bl nr kp rg pcl c p' H Hok Hp Hnu.
   assert (Hpf : pcl = false) by (eapply invp_pcl_false; eauto; discriminate).
-  destruct H as [Hacct Hcl Hkeep Hknd Hbl Hblnd Hreg Hregnd Hun Hexp Hpc Hpcl].
+  destruct H as [Hacct Hcl Hkeep Hknd Hbl Hblnd Hreg Hregnd Hun Hexp Hpc Hpcl Htm].
   simpl in Hpc. destruct Hpc as [Hck Hnin].
   constructor; auto.
   - intros _ c' [H|H]. subst; auto. apply Hkeep; auto.
@@ -460,13 +484,13 @@ Proof.
 Qed.
 
 (* murder_keepalived: unregister + close *)
-Lemma invp_unreg : forall cs bl nr kp rg pcl now c x, InvP cs bl nr kp rg pcl (MUnreg now c) ->
+Lemma invp_unreg : forall ka cs bl nr kp rg pcl now c x, InvP ka cs bl nr kp rg pcl (MUnreg now c) ->
   nth_error cs c = Some x ->
-  InvP (upd c close_conn cs) bl nr kp (remove1 c rg) pcl (MPop now).
+  InvP ka (upd c close_conn cs) bl nr kp (remove1 c rg) pcl (MPop now).
 Proof.
-  intros cs bl nr kp rg pcl now c x H Hx.
+  intros ka cs bl nr kp rg pcl now c x H Hx.
   assert (Hpf : pcl = false) by (eapply invp_pcl_false; eauto; discriminate).
-  destruct H as [Hacct Hcl Hkeep Hknd Hbl Hblnd Hreg Hregnd Hun Hexp Hpc Hpcl].
+  destruct H as [Hacct Hcl Hkeep Hknd Hbl Hblnd Hreg Hregnd Hun Hexp Hpc Hpcl Htm].
   simpl in Hpc. assert (Hst : st x = CExpiring) by (rewrite (stl_some _ _ _ Hx) in Hpc; congruence).
   assert (Hany : forall c' v, v <> CExpiring -> stl cs c' = Some v -> stl (upd c close_conn cs) c' = Some v).
   { intros. eapply stl_other; eauto. congruence. }
@@ -494,13 +518,16 @@ Proof.
     + destruct (Hexp c' H) as [n' En]. inversion En. congruence.
   - simpl. auto.
   - intro. congruence.
+  - intros c' x' H Ht. eqcase c c'.
+    + rewrite nth_upd_eq, Hx in H. simpl in H. inversion H; subst. simpl in Ht. try discriminate.
+    + rewrite nth_upd_ne in H; eauto.
 Qed.
 
 (* after the loop *)
-Lemma invp_exit : forall cs bl nr kp rg pcl p p', InvP cs bl nr kp rg pcl p -> not_unreg p ->
-  p' = MFinal \/ p' = MStopped -> InvP cs bl nr kp [] true p'.
+Lemma invp_exit : forall ka cs bl nr kp rg pcl p p', InvP ka cs bl nr kp rg pcl p -> not_unreg p ->
+  p' = MFinal \/ p' = MStopped -> InvP ka cs bl nr kp [] true p'.
 Proof.
-  intros cs bl nr kp rg pcl p p' [Hacct Hcl Hkeep Hknd Hbl Hblnd Hreg Hregnd Hun Hexp Hpc Hpcl] Hnu Hp.
+  intros ka cs bl nr kp rg pcl p p' [Hacct Hcl Hkeep Hknd Hbl Hblnd Hreg Hregnd Hun Hexp Hpc Hpcl Htm] Hnu Hp.
   constructor; auto; try discriminate.
   - intros c []. 
   - constructor.
@@ -509,10 +536,10 @@ Proof.
 Qed.
 
 (* a client connects *)
-Lemma invp_connect : forall cs bl nr kp rg pcl p, InvP cs bl nr kp rg pcl p ->
-  InvP (cs ++ [new_conn]) (bl ++ [length cs]) nr kp rg pcl p.
+Lemma invp_connect : forall ka cs bl nr kp rg pcl p, InvP ka cs bl nr kp rg pcl p ->
+  InvP ka (cs ++ [new_conn]) (bl ++ [length cs]) nr kp rg pcl p.
 Proof.
-  intros cs bl nr kp rg pcl p [Hacct Hcl Hkeep Hknd Hbl Hblnd Hreg Hregnd Hun Hexp Hpc Hpcl].
+  intros ka cs bl nr kp rg pcl p [Hacct Hcl Hkeep Hknd Hbl Hblnd Hreg Hregnd Hun Hexp Hpc Hpcl Htm].
   assert (Hold : forall c v, stl cs c = Some v -> stl (cs ++ [new_conn]) c = Some v).
   { unfold stl. intros c v H. destruct (nth_error cs c) eqn:E; try discriminate.
     rewrite nth_error_app1. rewrite E; auto. apply nth_error_Some. congruence. }
@@ -536,6 +563,7 @@ Proof.
   - intros c H. apply Hexp. unfold stl in *. destruct (nth_error (cs ++ [new_conn]) c) eqn:E; try discriminate.
     destruct (Hnew c c0 E) as [H'|[_ H']]. rewrite H'. auto. subst. simpl in H. discriminate.
   - unfold pc_ok in *. destruct p; auto. destruct Hpc; auto.
+  - intros c x H Ht. destruct (Hnew c x H) as [H'|[_ H']]; eauto. subst. discriminate.
 Qed.
 
 (* ------------------------------------------------------------------------------------------------ *)
@@ -543,9 +571,9 @@ Qed.
 (* ------------------------------------------------------------------------------------------------ *)
 Ltac inv_some := match goal with H : Some _ = Some _ |- _ => inversion H; subst; clear H end.
 
-Lemma p_start_inv : forall s c s', Inv s -> p_start s c = Some s' -> Inv s'.
+Lemma p_start_inv : forall g s c s', Inv g s -> p_start s c = Some s' -> Inv g s'.
 Proof.
-  unfold p_start, getc. intros s c s' H E. destruct (nth_error (conns s) c) as [x|] eqn:Hx; try discriminate.
+  unfold p_start, getc. intros g s c s' H E. destruct (nth_error (conns s) c) as [x|] eqn:Hx; try discriminate.
   destruct (st x) eqn:Hst; try discriminate. inv_some. unfold Inv in *. simpl.
   eapply invp_upd_gen; eauto. right. rewrite Hst. auto.
 Qed.
@@ -557,7 +585,7 @@ Proof.
   destruct (st x); try discriminate. inv_some. simpl. auto.
 Qed.
 
-Lemma p_handle_inv : forall g s c s', Inv s -> p_handle g s c = Some s' -> Inv s'.
+Lemma p_handle_inv : forall g s c s', Inv g s -> p_handle g s c = Some s' -> Inv g s'.
 Proof.
   unfold p_handle, getc. intros g s c s' H E. destruct (nth_error (conns s) c) as [x|] eqn:Hx; try discriminate.
   destruct (st x) eqn:Hst; try discriminate.
@@ -577,7 +605,7 @@ Proof.
   - destruct k; inv_some; simpl; auto.
 Qed.
 
-Lemma p_finish_inv : forall g s c s', Inv s -> p_finish g s c = Some s' -> Inv s'.
+Lemma p_finish_inv : forall g s c s', Inv g s -> p_finish g s c = Some s' -> Inv g s'.
 Proof.
   unfold p_finish, getc. intros g s c s' H E. destruct (nth_error (conns s) c) as [x|] eqn:Hx; try discriminate.
   destruct (st x) eqn:Hst; try discriminate.
@@ -594,18 +622,18 @@ Proof.
   destruct (ka && alive s); inv_some; simpl; repeat split; auto; lia.
 Qed.
 
-Lemma p_finlock_inv : forall s c s', Inv s -> p_finlock s c = Some s' -> Inv s'.
+Lemma p_finlock_inv : forall g s c s', Inv g s -> p_finlock s c = Some s' -> Inv g s'.
 Proof.
-  unfold p_finlock, getc. intros s c s' H E. destruct (nth_error (conns s) c) as [x|] eqn:Hx; try discriminate.
+  unfold p_finlock, getc. intros g s c s' H E. destruct (nth_error (conns s) c) as [x|] eqn:Hx; try discriminate.
   destruct (st x) eqn:Hst; try discriminate.
   destruct (pclosed s) eqn:Hp; simpl in E.
   - inv_some. unfold Inv in *. simpl. rewrite Hp in *.
     eapply invp_close; eauto; try (rewrite Hst; auto).
-    destruct H as [Hacct Hcl Hkeep Hknd Hbl Hblnd Hreg Hregnd Hun Hexp Hpc Hpcl].
+    destruct H as [Hacct Hcl Hkeep Hknd Hbl Hblnd Hreg Hregnd Hun Hexp Hpc Hpcl Htm].
     constructor; auto; try (intros; discriminate).
     destruct (Hpcl eq_refl) as [Em|Em]; rewrite Em; simpl; auto.
   - destruct (mem c (regd s)) eqn:Hm.
-    + exfalso. apply mem_In in Hm. unfold Inv in H. apply (i_regd _ _ _ _ _ _ _ H) in Hm.
+    + exfalso. apply mem_In in Hm. unfold Inv in H. apply (i_regd _ _ _ _ _ _ _ _ H) in Hm.
       rewrite (stl_some _ _ _ Hx) in Hm. rewrite Hst in Hm. destruct Hm as [E'|[E'|E']]; discriminate.
     + inv_some. unfold Inv in *. simpl. rewrite Hp in *. eapply invp_finlock; eauto.
 Qed.
@@ -618,9 +646,9 @@ Proof.
   destruct (pclosed s || mem c (regd s)); inv_some; simpl; repeat split; auto; lia.
 Qed.
 
-Lemma p_cancel_inv : forall s c s', Inv s -> p_cancel s c = Some s' -> Inv s'.
+Lemma p_cancel_inv : forall g s c s', Inv g s -> p_cancel s c = Some s' -> Inv g s'.
 Proof.
-  unfold p_cancel, getc. intros s c s' H E. destruct (nth_error (conns s) c) as [x|] eqn:Hx; try discriminate.
+  unfold p_cancel, getc. intros g s c s' H E. destruct (nth_error (conns s) c) as [x|] eqn:Hx; try discriminate.
   destruct (st x) eqn:Hst; try discriminate. inv_some. unfold Inv in *. simpl.
   eapply invp_close; eauto. rewrite Hst. auto.
 Qed.
@@ -628,7 +656,7 @@ Qed.
 Lemma head_mpc : forall g p s, head g (set_mpc p s) = head g s.
 Proof. intros. destruct s. reflexivity. Qed.
 
-Lemma head_inv : forall g s, Inv s -> not_unreg (mpc s) -> mpc s <> MFinal -> mpc s <> MStopped -> Inv (head g s).
+Lemma head_inv : forall g s, Inv g s -> not_unreg (mpc s) -> mpc s <> MFinal -> mpc s <> MStopped -> Inv g (head g s).
 Proof.
   intros g s H Hnu H1 H2. assert (Hpf : pclosed s = false) by (eapply invp_pcl_false; eauto).
   unfold head. destruct (negb (alive s)).
@@ -641,7 +669,7 @@ Proof. auto. Qed.
 
 Ltac nu := unfold not_unreg; intros; congruence.
 
-Lemma rd_step_inv : forall g s c r b s', Inv s -> mpc s = MRd c r -> rd_step g s c r b = Some s' -> Inv s'.
+Lemma rd_step_inv : forall g s c r b s', Inv g s -> mpc s = MRd c r -> rd_step g s c r b = Some s' -> Inv g s'.
 Proof.
   unfold rd_step. intros g s c r b s' H Hpc E.
   assert (Hpf : pclosed s = false) by (eapply invp_pcl_false; eauto; congruence).
@@ -653,11 +681,11 @@ Proof.
   - inv_some. unfold Inv in *. simpl. rewrite Hpc in H. eapply invp_rd_return; eauto.
   - assert (Hik : inited x = true -> In c (keep s)).
     { intro Hi. rewrite Hi in Hrace. simpl in Hrace. apply negb_false_iff in Hrace. apply mem_In; auto. }
-    assert (Hs4 : Inv (set_mpc (dispatch r)
+    assert (Hs4 : Inv g (set_mpc (dispatch r)
                (set_futs (futs (if inited x then set_keep (remove1 c (keep (set_regd (remove1 c (regd s)) s))) (set_regd (remove1 c (regd s)) s) else set_regd (remove1 c (regd s)) s) ++ [(c, false)])
                   (updc c (fun y => set_st CQueued (set_inited y))
                      (if inited x then set_keep (remove1 c (keep (set_regd (remove1 c (regd s)) s))) (set_regd (remove1 c (regd s)) s) else set_regd (remove1 c (regd s)) s))))).
-    { unfold Inv in *. rewrite Hpc in H. pose proof (invp_rd _ _ _ _ _ _ _ _ _ H Hm Hx Hik) as G.
+    { unfold Inv in *. rewrite Hpc in H. pose proof (invp_rd _ _ _ _ _ _ _ _ _ _ H Hm Hx Hik) as G.
       destruct (inited x); simpl; exact G. }
     destruct b; [|inv_some; exact Hs4].
     unfold inline_run in E.
@@ -665,9 +693,9 @@ Proof.
     destruct (p_start s4 c) as [s1|] eqn:E1; simpl in E; try discriminate.
     destruct (p_handle g s1 c) as [s2|] eqn:E2; simpl in E; try discriminate.
     destruct (p_finish g s2 c) as [s3|] eqn:E3; simpl in E; try discriminate.
-    assert (I1 : Inv s1) by (apply (p_start_inv s4 c s1); [exact Hs4 | exact E1]).
-    assert (I2 : Inv s2) by (apply (p_handle_inv g s1 c s2); auto).
-    assert (I3 : Inv s3) by (apply (p_finish_inv g s2 c s3); auto).
+    assert (I1 : Inv g s1) by (apply (p_start_inv g s4 c s1); [exact Hs4 | exact E1]).
+    assert (I2 : Inv g s2) by (apply (p_handle_inv g s1 c s2); auto).
+    assert (I3 : Inv g s3) by (apply (p_finish_inv g s2 c s3); auto).
     assert (M3 : mpc s3 = dispatch r).
     { destruct (p_start_same _ _ _ E1) as [A _]. destruct (p_handle_same _ _ _ _ E2) as [B _].
       destruct (p_finish_same _ _ _ _ E3) as [C _]. rewrite C, B, A. reflexivity. }
@@ -678,7 +706,7 @@ Proof.
     unfold Inv in *. simpl. eapply invp_pc; eauto. rewrite M3. apply dispatch_plain. simpl; auto. congruence.
 Qed.
 
-Lemma main_step_inv : forall g s evs b s', Inv s -> main_step g s evs b = Some s' -> Inv s'.
+Lemma main_step_inv : forall g s evs b s', Inv g s -> main_step g s evs b = Some s' -> Inv g s'.
 Proof.
   unfold main_step. intros g s evs b s' H E. destruct (mpc s) eqn:Hpc.
   - (* MSel *) destruct (evs_ok g s evs); try discriminate. inv_some.
@@ -694,7 +722,7 @@ Proof.
     + rewrite Hpc in H. eapply invp_accreg; eauto. apply mem_false; auto.
   - (* MRd *) eapply rd_step_inv; eauto.
   - (* MFin *) destruct (p_finlock s c) as [s1|] eqn:E1; simpl in E; try discriminate. inv_some.
-    pose proof (p_finlock_inv _ _ _ H E1) as I1. destruct (p_finlock_same _ _ _ E1) as [A [B _]].
+    pose proof (p_finlock_inv _ _ _ _ H E1) as I1. destruct (p_finlock_same _ _ _ E1) as [A [B _]].
     assert (Hpf : pclosed s = false) by (eapply invp_pcl_false; eauto; congruence).
     unfold Inv in *. simpl. eapply invp_pc; eauto. rewrite A, Hpc; nu. apply pc_ok_dispatch. congruence.
   - (* MWait *) assert (Hpf : pclosed s = false) by (eapply invp_pcl_false; eauto; congruence).
@@ -714,7 +742,7 @@ Proof.
     rewrite <- (head_mpc g MWait). apply head_inv; simpl; try nu; try congruence.
     unfold Inv in *. simpl. rewrite Hpc in H. eapply invp_putback; eauto. simpl; auto. congruence. nu.
   - (* MUnreg *) inv_some. unfold Inv in *. simpl. rewrite Hpc in H.
-    pose proof (i_pc _ _ _ _ _ _ _ H) as Hc. simpl in Hc. unfold stl in Hc.
+    pose proof (i_pc _ _ _ _ _ _ _ _ H) as Hc. simpl in Hc. unfold stl in Hc.
     destruct (nth_error (conns s) c) as [x|] eqn:Hx; try discriminate.
     eapply invp_unreg; eauto.
   - (* MFinal *) inv_some. unfold Inv in *. simpl. eapply invp_pc; eauto. rewrite Hpc; nu. simpl; auto.
@@ -722,11 +750,14 @@ Proof.
   - discriminate.
 Qed.
 
-Lemma inv_same_conn_st : forall s c f x, Inv s -> getc s c = Some x ->
-  st (f x) = st x -> closes (f x) = closes x -> inited (f x) = inited x -> Inv (updc c f s).
-Proof. intros. unfold Inv in *. simpl. eapply invp_upd_gen; eauto. Qed.
+Lemma inv_same_conn_st : forall g s c f x, Inv g s -> getc s c = Some x ->
+  st (f x) = st x -> closes (f x) = closes x -> inited (f x) = inited x ->
+  tmo (f x) = tmo x -> since (f x) = since x -> Inv g (updc c f s).
+Proof.
+  intros. unfold Inv in *. simpl. apply (invp_upd_gen _ _ _ _ _ _ _ _ _ x); auto.
+Qed.
 
-Theorem step_inv : forall g s l s', Inv s -> step g s l = Some s' -> Inv s'.
+Theorem step_inv : forall g s l s', Inv g s -> step g s l = Some s' -> Inv g s'.
 Proof.
   intros g s l s' H E. destruct l; simpl in E.
   - eapply main_step_inv; eauto.
@@ -745,7 +776,7 @@ Proof.
   - inv_some. exact H.
 Qed.
 
-Lemma init_inv : forall g, Inv (init g).
+Lemma init_inv : forall g, Inv g (init g).
 Proof.
   intros. unfold init. apply head_inv; simpl; try nu; try congruence.
   unfold Inv. simpl. constructor; simpl; auto; try (intros; try contradiction; try discriminate; fail).
@@ -755,9 +786,10 @@ Proof.
   - constructor.
   - intros c x H. destruct c; discriminate.
   - intros c H. unfold stl in H. destruct c; discriminate.
+  - intros c x H. destruct c; discriminate.
 Qed.
 
-Theorem run_inv : forall g ls s s', Inv s -> run g s ls = Some s' -> Inv s'.
+Theorem run_inv : forall g ls s s', Inv g s -> run g s ls = Some s' -> Inv g s'.
 Proof.
   induction ls; simpl; intros. inv_some; auto.
   destruct (step g s a) as [s0|] eqn:E; simpl in H0; try discriminate.
@@ -766,5 +798,545 @@ Qed.
 
 Definition reachable (g:cfg) (s:state) : Prop := exists ls, run g (init g) ls = Some s.
 
-Theorem reachable_inv : forall g s, reachable g s -> Inv s.
+Theorem reachable_inv : forall g s, reachable g s -> Inv g s.
 Proof. intros g s [ls H]. eapply run_inv; eauto. apply init_inv. Qed.
+
+(* ------------------------------------------------------------------------------------------------ *)
+(* consequences: accounting, closes                                                                 *)
+(* ------------------------------------------------------------------------------------------------ *)
+Theorem accounting : forall g s, reachable g s ->
+  nr_conns s = n_counted s
+  /\ (forall c x, getc s c = Some x -> closes x = match st x with CClosed => 1%nat | _ => 0%nat end).
+Proof.
+  intros g s R. apply reachable_inv in R. split. apply (i_acct _ _ _ _ _ _ _ _ R).
+  intros. apply (i_closes _ _ _ _ _ _ _ _ R c). auto.
+Qed.
+
+(* a socket that the worker has closed belongs to a connection in state Closed: in particular never to one
+   whose request is queued, running or finishing *)
+Theorem never_closed_while_handled : forall g s c x, reachable g s -> getc s c = Some x ->
+  st x <> CClosed -> closes x = 0%nat.
+Proof.
+  intros g s c x R Hx Hn. destruct (accounting g s R) as [_ H]. rewrite (H c x Hx). destruct (st x); congruence.
+Qed.
+
+Theorem no_double_close : forall g s c x, reachable g s -> getc s c = Some x -> (closes x <= 1)%nat.
+Proof.
+  intros g s c x R Hx. destruct (accounting g s R) as [_ H]. rewrite (H c x Hx). destruct (st x); lia.
+Qed.
+
+Lemma reachable_step : forall g s l s', reachable g s -> step g s l = Some s' -> reachable g s'.
+Proof.
+  intros g s l s' [ls H] E. exists (ls ++ [l]).
+  assert (G : forall ls s0, run g s0 ls = Some s -> run g s0 (ls ++ [l]) = Some s').
+  { induction ls0; simpl; intros. inv_some. rewrite E. auto.
+    destruct (step g s0 a); simpl in *; try discriminate. auto. }
+  auto.
+Qed.
+
+Lemma run_app : forall g l1 l2 s, run g s (l1 ++ l2) = obind (run g s l1) (fun s1 => run g s1 l2).
+Proof. induction l1; simpl; intros; auto. destruct (step g s a); simpl; auto. Qed.
+
+Lemma reachable_run : forall g s ls s', reachable g s -> run g s ls = Some s' -> reachable g s'.
+Proof. intros g s ls s' [l0 H] E. exists (l0 ++ ls). rewrite run_app, H. auto. Qed.
+
+(* ---- what a single (non-inline) step does to one connection ---- *)
+Ltac upd_cases Hx' c :=
+  repeat match type of Hx' with
+  | context [nth_error (upd ?c0 ?f ?l) c] =>
+      destruct (Nat.eqb_spec c0 c); [subst; rewrite nth_upd_eq in Hx' | rewrite nth_upd_ne in Hx' by auto]
+  end.
+
+Ltac same_conn Hx Hx' :=
+  rewrite Hx in Hx'; simpl in Hx'; inversion Hx'; subst; clear Hx'.
+
+(* A close of connection c (its state becomes Closed) happens only from: handle returned (finish_request),
+   finish_request at its lock with the poller already closed, a cancelled queued future, or an expired
+   keep-alive connection popped by the reaper.  Never from Running, never from a live Keep/New. *)
+Theorem close_requires : forall g s l s' c x x', reachable g s -> step g s l = Some s' ->
+  (forall evs, l <> LMain evs true) ->
+  getc s c = Some x -> getc s' c = Some x' -> st x <> CClosed -> st x' = CClosed ->
+  (exists ka, st x = CDone ka /\ l = LFinish c) \/ (st x = CTimed /\ l = LFinLock c)
+  \/ (st x = CQueued /\ l = LCancel c) \/ (st x = CExpiring /\ exists now, mpc s = MUnreg now c).
+Proof.
+  intros g s l s' c x x' R E Hni Hx Hx' Hn Hc. apply reachable_inv in R. unfold getc in *.
+  destruct l; simpl in E.
+  - (* main *)
+    destruct inl_. exfalso; eapply Hni; eauto. clear Hni.
+    unfold main_step in E. destruct (mpc s) eqn:Hpc.
+    + destruct (evs_ok g s evs); try discriminate. inv_some. simpl in Hx'. congruence.
+    + destruct (backlog s) as [|c0 bl]; inv_some; simpl in Hx'. congruence.
+      upd_cases Hx' c. same_conn Hx Hx'. discriminate. congruence.
+    + destruct (mem c0 (regd s)); inv_some; simpl in Hx'; congruence.
+    + unfold rd_step in E. destruct (negb (mem c0 (regd s))). inv_some; simpl in Hx'; congruence.
+      unfold getc in E. destruct (nth_error (conns s) c0) as [x0|]. 2:{ inv_some; simpl in Hx'; congruence. }
+      destruct (inited x0 && negb (mem c0 (keep s))). inv_some; simpl in Hx'; congruence.
+      inv_some. destruct (inited x0); simpl in Hx'; upd_cases Hx' c; try congruence; same_conn Hx Hx'; discriminate.
+    + destruct (p_finlock s c0) as [s1|] eqn:E1; simpl in E; try discriminate. inv_some. simpl in Hx'.
+      unfold p_finlock, getc in E1. destruct (nth_error (conns s) c0) as [x0|] eqn:Hx0; try discriminate.
+      destruct (st x0) eqn:Hst0; try discriminate.
+      exfalso. unfold Inv in R. rewrite Hpc in R.
+      destruct (pclosed s) eqn:Hp. destruct (i_pclosed _ _ _ _ _ _ _ _ R eq_refl); discriminate.
+      destruct (mem c0 (regd s)) eqn:Hm.
+      * apply mem_In in Hm. apply (i_regd _ _ _ _ _ _ _ _ R) in Hm. rewrite (stl_some _ _ _ Hx0), Hst0 in Hm.
+        destruct Hm as [?|[?|?]]; discriminate.
+      * simpl in E1. inv_some. simpl in Hx'. upd_cases Hx' c; try congruence. same_conn Hx Hx'. discriminate.
+    + destruct (orphan s); inv_some; simpl in Hx'; congruence.
+    + destruct (keep s) as [|c0 k].
+      * inv_some. unfold head in Hx'. destruct (negb (alive s)); [|destruct (nr_conns s <? wconn g)]; simpl in Hx'; congruence.
+      * unfold getc in E. destruct (nth_error (conns s) c0) as [x0|]. 2:{ inv_some; simpl in Hx'; congruence. }
+        destruct (now <? tmo x0); inv_some; simpl in Hx'. congruence.
+        upd_cases Hx' c; try congruence. same_conn Hx Hx'. discriminate.
+    + inv_some. unfold head in Hx'. simpl in Hx'.
+      destruct (negb (alive s)); [|destruct (nr_conns s <? wconn g)]; simpl in Hx'; congruence.
+    + inv_some. simpl in Hx'. upd_cases Hx' c; try congruence. same_conn Hx Hx'.
+      right; right; right. unfold Inv in R. rewrite Hpc in R. pose proof (i_pc _ _ _ _ _ _ _ _ R) as Hp. simpl in Hp.
+      rewrite (stl_some _ _ _ Hx) in Hp. inversion Hp. split; eauto.
+    + inv_some. simpl in Hx'. congruence.
+    + discriminate.
+    + discriminate.
+  - destruct (n_running s <? threads g); try discriminate. unfold p_start, getc in E.
+    destruct (nth_error (conns s) c0) as [x0|] eqn:Hx0; try discriminate. destruct (st x0); try discriminate.
+    inv_some. simpl in Hx'. upd_cases Hx' c; try congruence. same_conn Hx Hx'. discriminate.
+  - unfold p_handle, getc in E.
+    destruct (nth_error (conns s) c0) as [x0|] eqn:Hx0; try discriminate. destruct (st x0); try discriminate.
+    destruct (match pbuf x0 with [] => sockbuf x0 | _ :: _ => pbuf x0 end) as [|k rest].
+    + destruct (eof x0); try discriminate. inv_some. simpl in Hx'. upd_cases Hx' c; try congruence. same_conn Hx Hx'. discriminate.
+    + destruct k; inv_some; simpl in Hx'; upd_cases Hx' c; try congruence; same_conn Hx Hx'; discriminate.
+  - unfold p_finish, getc in E.
+    destruct (nth_error (conns s) c0) as [x0|] eqn:Hx0; try discriminate. destruct (st x0) eqn:Hst0; try discriminate.
+    destruct (ka && alive s); inv_some; simpl in Hx'; upd_cases Hx' c; try congruence; same_conn Hx Hx'.
+    discriminate. left. exists ka. rewrite Hx0 in Hx. inversion Hx; subst. auto.
+  - unfold p_finlock, getc in E.
+    destruct (nth_error (conns s) c0) as [x0|] eqn:Hx0; try discriminate. destruct (st x0) eqn:Hst0; try discriminate.
+    destruct (pclosed s || mem c0 (regd s)); inv_some; simpl in Hx'; upd_cases Hx' c; try congruence; same_conn Hx Hx'.
+    right; left. rewrite Hx0 in Hx. inversion Hx; subst. auto. discriminate.
+  - unfold p_cancel, getc in E.
+    destruct (nth_error (conns s) c0) as [x0|] eqn:Hx0; try discriminate. destruct (st x0) eqn:Hst0; try discriminate.
+    inv_some. simpl in Hx'. upd_cases Hx' c; try congruence. same_conn Hx Hx'.
+    right; right; left. rewrite Hx0 in Hx. inversion Hx; subst. auto.
+  - inv_some. simpl in Hx'. rewrite nth_error_app1 in Hx' by (apply nth_error_Some; congruence). congruence.
+  - unfold getc in E. destruct (nth_error (conns s) c0) as [x0|] eqn:Hx0; try discriminate. destruct (eof x0); try discriminate.
+    destruct (st x0); inv_some; try congruence; simpl in Hx'; upd_cases Hx' c; try congruence; same_conn Hx Hx'; simpl in *; congruence.
+  - unfold getc in E. destruct (nth_error (conns s) c0) as [x0|] eqn:Hx0; try discriminate. destruct (eof x0); try discriminate.
+    inv_some. simpl in Hx'. upd_cases Hx' c; try congruence. same_conn Hx Hx'. simpl in *. congruence.
+  - inv_some. simpl in Hx'. congruence.
+  - inv_some. simpl in Hx'. congruence.
+  - inv_some. simpl in Hx'. congruence.
+Qed.
+
+(* ---- connections persist; their close and response counters never decrease ---- *)
+Definition Rm (x x':conn) : Prop := (closes x <= closes x')%nat /\ (resp x <= resp x')%nat.
+Definition ext (cs cs':list conn) : Prop :=
+  forall c x, nth_error cs c = Some x -> exists x', nth_error cs' c = Some x' /\ Rm x x'.
+
+Lemma ext_refl : forall cs, ext cs cs.
+Proof. intros cs c x H. exists x. unfold Rm. split; auto. Qed.
+
+Lemma ext_trans : forall a b c, ext a b -> ext b c -> ext a c.
+Proof.
+  intros a b c H1 H2 k x H. destruct (H1 k x H) as [y [Hy [A1 A2]]]. destruct (H2 k y Hy) as [z [Hz [B1 B2]]].
+  exists z. unfold Rm. split; auto. split; lia.
+Qed.
+
+Lemma ext_upd : forall cs c f, (forall x, Rm x (f x)) -> ext cs (upd c f cs).
+Proof.
+  intros cs c f Hf k x H. destruct (Nat.eqb_spec c k).
+  - subst. rewrite nth_upd_eq, H. simpl. eauto.
+  - rewrite nth_upd_ne by auto. exists x. unfold Rm. split; auto.
+Qed.
+
+Lemma ext_app : forall cs l, ext cs (cs ++ l).
+Proof.
+  intros cs l k x H. exists x. unfold Rm. split; auto. rewrite nth_error_app1; auto. apply nth_error_Some. congruence.
+Qed.
+
+Ltac ext_one := first [ apply ext_refl | apply ext_upd; intro; unfold Rm; simpl; lia ].
+
+Lemma p_start_ext : forall s c s', p_start s c = Some s' -> ext (conns s) (conns s').
+Proof.
+  unfold p_start. intros s c s' E. destruct (getc s c) as [x|]; try discriminate.
+  destruct (st x); try discriminate. inv_some. simpl. ext_one.
+Qed.
+
+Lemma p_handle_ext : forall g s c s', p_handle g s c = Some s' -> ext (conns s) (conns s').
+Proof.
+  unfold p_handle. intros g s c s' E. destruct (getc s c) as [x|]; try discriminate.
+  destruct (st x); try discriminate.
+  destruct (match pbuf x with [] => sockbuf x | _ :: _ => pbuf x end) as [|k rest].
+  - destruct (eof x); try discriminate. inv_some. simpl. ext_one.
+  - destruct k; inv_some; simpl; ext_one.
+Qed.
+
+Lemma p_finish_ext : forall g s c s', p_finish g s c = Some s' -> ext (conns s) (conns s').
+Proof.
+  unfold p_finish. intros g s c s' E. destruct (getc s c) as [x|]; try discriminate.
+  destruct (st x); try discriminate. destruct (ka && alive s); inv_some; simpl; ext_one.
+Qed.
+
+Lemma p_finlock_ext : forall s c s', p_finlock s c = Some s' -> ext (conns s) (conns s').
+Proof.
+  unfold p_finlock. intros s c s' E. destruct (getc s c) as [x|]; try discriminate.
+  destruct (st x); try discriminate. destruct (pclosed s || mem c (regd s)); inv_some; simpl; ext_one.
+Qed.
+
+Lemma p_cancel_ext : forall s c s', p_cancel s c = Some s' -> ext (conns s) (conns s').
+Proof.
+  unfold p_cancel. intros s c s' E. destruct (getc s c) as [x|]; try discriminate.
+  destruct (st x); try discriminate. inv_some; simpl; ext_one.
+Qed.
+
+Lemma head_conns : forall g s, conns (head g s) = conns s.
+Proof. intros. unfold head. destruct (negb (alive s)); [|destruct (nr_conns s <? wconn g)]; reflexivity. Qed.
+
+Lemma main_step_ext : forall g s evs b s', main_step g s evs b = Some s' -> ext (conns s) (conns s').
+Proof.
+  unfold main_step. intros g s evs b s' E. destruct (mpc s).
+  - destruct (evs_ok g s evs); try discriminate. inv_some. simpl. ext_one.
+  - destruct (backlog s); inv_some; simpl; ext_one.
+  - destruct (mem c (regd s)); inv_some; simpl; ext_one.
+  - unfold rd_step in E. destruct (negb (mem c (regd s))). inv_some; simpl; ext_one.
+    destruct (getc s c) as [x|]. 2:{ inv_some; simpl; ext_one. }
+    destruct (inited x && negb (mem c (keep s))). inv_some; simpl; ext_one.
+    match type of E with (if b then inline_run g ?t c r else _) = _ => set (s4 := t) in * end.
+    assert (H4 : ext (conns s) (conns s4)) by (unfold s4; destruct (inited x); simpl; ext_one).
+    destruct b; [|inv_some; auto].
+    unfold inline_run in E.
+    destruct (p_start s4 c) as [s1|] eqn:E1; simpl in E; try discriminate.
+    destruct (p_handle g s1 c) as [s2|] eqn:E2; simpl in E; try discriminate.
+    destruct (p_finish g s2 c) as [s3|] eqn:E3; simpl in E; try discriminate.
+    assert (H3 : ext (conns s) (conns s3)).
+    { eapply ext_trans. apply H4. eapply ext_trans. eapply p_start_ext; eauto.
+      eapply ext_trans. eapply p_handle_ext; eauto. eapply p_finish_ext; eauto. }
+    destruct (getc s3 c) as [x3|]; [destruct (st x3)|]; inv_some; auto.
+  - destruct (p_finlock s c) as [s1|] eqn:E1; simpl in E; try discriminate. inv_some. simpl.
+    eapply p_finlock_ext; eauto.
+  - destruct (orphan s); inv_some; simpl; ext_one.
+  - destruct (keep s) as [|c k]. inv_some. rewrite head_conns. ext_one.
+    destruct (getc s c) as [x|]. 2:{ inv_some; simpl; ext_one. }
+    destruct (now <? tmo x); inv_some; simpl; ext_one.
+  - inv_some. rewrite head_conns. simpl. ext_one.
+  - inv_some. simpl. ext_one.
+  - inv_some. simpl. ext_one.
+  - discriminate.
+  - discriminate.
+Qed.
+
+Theorem step_ext : forall g s l s', step g s l = Some s' -> ext (conns s) (conns s').
+Proof.
+  intros g s l s' E. destruct l; simpl in E.
+  - eapply main_step_ext; eauto.
+  - destruct (n_running s <? threads g); try discriminate. eapply p_start_ext; eauto.
+  - eapply p_handle_ext; eauto.
+  - eapply p_finish_ext; eauto.
+  - eapply p_finlock_ext; eauto.
+  - eapply p_cancel_ext; eauto.
+  - inv_some. simpl. apply ext_app.
+  - destruct (getc s c) as [x|]; try discriminate. destruct (eof x); try discriminate.
+    destruct (st x); inv_some; simpl; ext_one.
+  - destruct (getc s c) as [x|]; try discriminate. destruct (eof x); try discriminate. inv_some. simpl. ext_one.
+  - inv_some. simpl. ext_one.
+  - inv_some. simpl. ext_one.
+  - inv_some. simpl. ext_one.
+Qed.
+
+(* Closed is absorbing *)
+Theorem closed_absorbing : forall g s l s' c x, reachable g s -> step g s l = Some s' ->
+  getc s c = Some x -> st x = CClosed -> exists x', getc s' c = Some x' /\ st x' = CClosed.
+Proof.
+  intros g s l s' c x R E Hx Hst. destruct (step_ext _ _ _ _ E c x Hx) as [x' [Hx' [Hle _]]].
+  exists x'. split; auto.
+  pose proof (reachable_step _ _ _ _ R E) as R'. destruct (accounting g s' R') as [_ A'].
+  destruct (accounting g s R) as [_ A]. rewrite (A' c x' Hx'), (A c x Hx), Hst in Hle.
+  destruct (st x'); auto; lia.
+Qed.
+
+(* ------------------------------------------------------------------------------------------------ *)
+(* the connection bound                                                                             *)
+(* ------------------------------------------------------------------------------------------------ *)
+Fixpoint nacc (r:list ev) : Z := match r with [] => 0 | EvAcc _ :: t => 1 + nacc t | EvRd _ :: t => nacc t end.
+Fixpoint acc_ids (r:list ev) : list nat := match r with [] => [] | EvAcc l :: t => l :: acc_ids t | EvRd _ :: t => acc_ids t end.
+
+Lemma nacc_len : forall r, nacc r = Z.of_nat (length (acc_ids r)).
+Proof.
+  induction r as [|[l|c] r].
+  - reflexivity.
+  - change (1 + nacc r = Z.of_nat (S (length (acc_ids r)))). rewrite IHr, Nat2Z.inj_succ. lia.
+  - exact IHr.
+Qed.
+
+Lemma nacc_nonneg : forall r, 0 <= nacc r.
+Proof. intros. rewrite nacc_len. lia. Qed.
+
+Lemma ev_mem_acc : forall l r, In l (acc_ids r) -> ev_mem (EvAcc l) r = true.
+Proof.
+  induction r as [|[l'|c] r]; simpl; intros; try contradiction; auto.
+  destruct H. subst. rewrite Nat.eqb_refl. auto. rewrite IHr; auto. apply orb_true_r.
+Qed.
+
+Lemma acc_ids_nodup : forall r, ev_nodup r = true -> NoDup (acc_ids r).
+Proof.
+  induction r as [|[l|c] r]; simpl; intros. constructor.
+  - apply andb_true_iff in H. destruct H. constructor; auto. intro Hin. apply ev_mem_acc in Hin. rewrite Hin in H. discriminate.
+  - apply andb_true_iff in H. destruct H. auto.
+Qed.
+
+Lemma nacc_bound : forall g s evs, evs_ok g s evs = true -> nacc evs <= Z.of_nat (nlisten g).
+Proof.
+  intros g s evs H. unfold evs_ok in H. apply andb_true_iff in H. destruct H as [Hall Hnd].
+  rewrite nacc_len. apply inj_le. rewrite <- (seq_length (nlisten g) 0).
+  apply NoDup_incl_length. apply acc_ids_nodup; auto.
+  intros l Hin. apply in_seq. split. lia. simpl.
+  clear Hnd. induction evs as [|[l'|c] r]; simpl in *; try contradiction.
+  - apply andb_true_iff in Hall. destruct Hall as [A B]. destruct Hin. subst. apply Nat.ltb_lt; auto. auto.
+  - apply andb_true_iff in Hall. destruct Hall as [A B]. auto.
+Qed.
+
+Definition budget (g:cfg) (p:pc) : Z :=
+  match p with
+  | MSel => Z.of_nat (nlisten g)
+  | MAcc r => 1 + nacc r
+  | MAccReg _ r | MRd _ r | MFin _ r => nacc r
+  | _ => 0
+  end.
+
+Lemma budget_dispatch : forall g r, budget g (dispatch r) = nacc r.
+Proof. intros. destruct r as [|[l|c] r]; simpl; auto. Qed.
+
+Lemma budget_nonneg : forall g p, 0 <= budget g p.
+Proof. intros. destruct p; unfold budget; try lia; try (pose proof (nacc_nonneg r); lia). Qed.
+
+Definition Bnd (g:cfg) (s:state) : Prop := nr_conns s + budget g (mpc s) <= wconn g + Z.of_nat (nlisten g) - 1.
+
+Lemma p_cancel_same : forall s c s', p_cancel s c = Some s' ->
+  mpc s' = mpc s /\ pclosed s' = pclosed s /\ nr_conns s' <= nr_conns s /\ clock s' = clock s.
+Proof.
+  unfold p_cancel. intros s c s' E. destruct (getc s c) as [x|]; try discriminate.
+  destruct (st x); try discriminate. inv_some; simpl; repeat split; auto; lia.
+Qed.
+
+Ltac sred := cbn [conns backlog nr_conns keep futs regd alive orphan clock nrq pclosed mpc
+                  set_conns set_backlog set_nr set_keep set_futs set_regd set_alive set_orphan set_clock set_nrq
+                  set_pclosed set_mpc updc exit_seq do_close budget].
+
+Lemma head_bnd : forall g s, nr_conns s <= wconn g + Z.of_nat (nlisten g) - 1 -> Bnd g (head g s).
+Proof.
+  intros. unfold Bnd, head. destruct (negb (alive s)). sred. lia.
+  destruct (nr_conns s <? wconn g) eqn:E; sred. apply Z.ltb_lt in E. lia. lia.
+Qed.
+
+Lemma main_step_bnd : forall g s evs b s', Bnd g s -> main_step g s evs b = Some s' -> Bnd g s'.
+Proof.
+  unfold main_step, Bnd. intros g s evs b s' H E. destruct (mpc s) eqn:Hpc; unfold budget in H.
+  - destruct (evs_ok g s evs) eqn:Ok; try discriminate. inv_some. sred. rewrite budget_dispatch.
+    pose proof (nacc_bound _ _ _ Ok). lia.
+  - destruct (backlog s); inv_some; sred. rewrite budget_dispatch. lia. lia.
+  - destruct (mem c (regd s)); inv_some; sred. pose proof (nacc_nonneg r). lia. rewrite budget_dispatch. lia.
+  - unfold rd_step in E. pose proof (nacc_nonneg r) as Hr.
+    destruct (negb (mem c (regd s))). inv_some; sred; lia.
+    destruct (getc s c) as [x|]. 2:{ inv_some; sred; lia. }
+    destruct (inited x && negb (mem c (keep s))). inv_some; sred; rewrite budget_dispatch; lia.
+    match type of E with (if b then inline_run g ?t c r else _) = _ => set (s4 := t) in * end.
+    assert (H4 : nr_conns s4 = nr_conns s /\ mpc s4 = dispatch r) by (unfold s4; destruct (inited x); sred; auto).
+    destruct H4 as [N4 M4].
+    destruct b; [|inv_some; rewrite N4, M4, budget_dispatch; lia].
+    unfold inline_run in E.
+    destruct (p_start s4 c) as [s1|] eqn:E1; simpl in E; try discriminate.
+    destruct (p_handle g s1 c) as [s2|] eqn:E2; simpl in E; try discriminate.
+    destruct (p_finish g s2 c) as [s3|] eqn:E3; simpl in E; try discriminate.
+    destruct (p_start_same _ _ _ E1) as [A1 [_ [A2 _]]]. destruct (p_handle_same _ _ _ _ E2) as [B1 [_ [B2 _]]].
+    destruct (p_finish_same _ _ _ _ E3) as [C1 [_ [C2 _]]].
+    assert (N3 : nr_conns s3 <= nr_conns s) by lia.
+    assert (M3 : mpc s3 = dispatch r) by congruence.
+    destruct (getc s3 c) as [x3|]; [destruct (st x3)|]; inv_some; sred; try (rewrite M3, budget_dispatch); lia.
+  - destruct (p_finlock s c) as [s1|] eqn:E1; simpl in E; try discriminate. inv_some. sred.
+    destruct (p_finlock_same _ _ _ E1) as [_ [_ [A _]]]. rewrite budget_dispatch. lia.
+  - destruct (orphan s); inv_some; sred; lia.
+  - destruct (keep s) as [|c k]. inv_some. apply head_bnd. lia.
+    destruct (getc s c) as [x|]. 2:{ inv_some; sred; lia. }
+    destruct (now <? tmo x); inv_some; sred; lia.
+  - inv_some. apply head_bnd. sred. lia.
+  - inv_some. sred. lia.
+  - inv_some. sred. lia.
+  - discriminate.
+  - discriminate.
+Qed.
+
+Theorem step_bnd : forall g s l s', Bnd g s -> step g s l = Some s' -> Bnd g s'.
+Proof.
+  intros g s l s' H E. destruct l; simpl in E.
+  - eapply main_step_bnd; eauto.
+  - destruct (n_running s <? threads g); try discriminate. destruct (p_start_same _ _ _ E) as [A [_ [B _]]].
+    unfold Bnd in *. rewrite A, B. auto.
+  - destruct (p_handle_same _ _ _ _ E) as [A [_ [B _]]]. unfold Bnd in *. rewrite A, B. auto.
+  - destruct (p_finish_same _ _ _ _ E) as [A [_ [B _]]]. unfold Bnd in *. rewrite A. lia.
+  - destruct (p_finlock_same _ _ _ E) as [A [_ [B _]]]. unfold Bnd in *. rewrite A. lia.
+  - destruct (p_cancel_same _ _ _ E) as [A [_ [B _]]]. unfold Bnd in *. rewrite A. lia.
+  - inv_some. exact H.
+  - destruct (getc s c) as [x|]; try discriminate. destruct (eof x); try discriminate.
+    destruct (st x); inv_some; exact H.
+  - destruct (getc s c) as [x|]; try discriminate. destruct (eof x); try discriminate. inv_some. exact H.
+  - inv_some. exact H.
+  - inv_some. exact H.
+  - inv_some. exact H.
+Qed.
+
+Definition cfg_ok (g:cfg) : Prop := 1 <= wconn g /\ (1 <= nlisten g)%nat.
+
+Theorem bounded_general : forall g s, cfg_ok g -> reachable g s ->
+  nr_conns s <= wconn g + Z.of_nat (nlisten g) - 1.
+Proof.
+  intros g s [Hw Hl] [ls H].
+  assert (B0 : Bnd g (init g)). { unfold init. apply head_bnd. simpl. lia. }
+  assert (G : forall ls s0, Bnd g s0 -> run g s0 ls = Some s -> Bnd g s).
+  { induction ls0; simpl; intros. inv_some; auto.
+    destruct (step g s0 a) as [s1|] eqn:E; simpl in *; try discriminate. apply (IHls0 s1); auto. eapply step_bnd; eauto. }
+  pose proof (G _ _ B0 H) as B. unfold Bnd in B. pose proof (budget_nonneg g (mpc s)). lia.
+Qed.
+
+Theorem bounded : forall g s, 1 <= wconn g -> nlisten g = 1%nat -> reachable g s -> nr_conns s <= wconn g.
+Proof.
+  intros g s Hw Hl R. pose proof (bounded_general g s) as B. unfold cfg_ok in B. rewrite Hl in B.
+  simpl in B. assert (nr_conns s <= wconn g + 1 - 1) by (apply B; auto; lia). lia.
+Qed.
+
+(* ------------------------------------------------------------------------------------------------ *)
+(* time: the reaper compares with a clock value that is not in the future                           *)
+(* ------------------------------------------------------------------------------------------------ *)
+Definition Tm (s:state) : Prop :=
+  match mpc s with MPop now | MUnreg now _ => now <= clock s | _ => True end.
+
+Lemma head_tm : forall g s, Tm (head g s).
+Proof. intros. unfold Tm, head. destruct (negb (alive s)); [|destruct (nr_conns s <? wconn g)]; simpl; auto. Qed.
+
+Lemma tm_dispatch : forall s r, Tm (set_mpc (dispatch r) s).
+Proof. intros. unfold Tm. destruct r as [|[l|c] r]; simpl; auto. Qed.
+
+Lemma main_step_tm : forall g s evs b s', Tm s -> main_step g s evs b = Some s' -> Tm s'.
+Proof.
+  unfold main_step. intros g s evs b s' H E. unfold Tm in H. destruct (mpc s) eqn:Hpc.
+  - destruct (evs_ok g s evs); try discriminate. inv_some. apply tm_dispatch.
+  - destruct (backlog s); inv_some. apply tm_dispatch. unfold Tm; simpl; auto.
+  - destruct (mem c (regd s)); inv_some. unfold Tm; simpl; auto. apply tm_dispatch.
+  - unfold rd_step in E.
+    destruct (negb (mem c (regd s))). inv_some; unfold Tm; simpl; auto.
+    destruct (getc s c) as [x|]. 2:{ inv_some; unfold Tm; simpl; auto. }
+    destruct (inited x && negb (mem c (keep s))). inv_some; apply tm_dispatch.
+    destruct b; [|inv_some; apply tm_dispatch].
+    unfold inline_run in E.
+    match type of E with obind (p_start ?t c) _ = _ => set (s4 := t) in * end.
+    assert (M4 : mpc s4 = dispatch r) by reflexivity.
+    destruct (p_start s4 c) as [s1|] eqn:E1; simpl in E; try discriminate.
+    destruct (p_handle g s1 c) as [s2|] eqn:E2; simpl in E; try discriminate.
+    destruct (p_finish g s2 c) as [s3|] eqn:E3; simpl in E; try discriminate.
+    destruct (p_start_same _ _ _ E1) as [A1 _]. destruct (p_handle_same _ _ _ _ E2) as [B1 _].
+    destruct (p_finish_same _ _ _ _ E3) as [C1 _].
+    assert (M3 : mpc s3 = dispatch r) by congruence.
+    assert (T3 : Tm s3). { unfold Tm. rewrite M3. destruct r as [|[l|c'] r]; simpl; auto. }
+    destruct (getc s3 c) as [x3|]; [destruct (st x3)|]; inv_some; auto; unfold Tm; simpl; auto.
+  - destruct (p_finlock s c) as [s1|] eqn:E1; simpl in E; try discriminate. inv_some. apply tm_dispatch.
+  - destruct (orphan s); inv_some; unfold Tm; simpl; auto. lia.
+  - destruct (keep s) as [|c k]. inv_some. apply head_tm.
+    destruct (getc s c) as [x|]. 2:{ inv_some; unfold Tm; simpl; auto. }
+    destruct (now <? tmo x); inv_some; unfold Tm; simpl; auto.
+  - inv_some. apply head_tm.
+  - inv_some. unfold Tm; simpl; auto.
+  - inv_some. unfold Tm; simpl; auto.
+  - discriminate.
+  - discriminate.
+Qed.
+
+Theorem step_tm : forall g s l s', Tm s -> step g s l = Some s' -> Tm s'.
+Proof.
+  intros g s l s' H E. destruct l; simpl in E.
+  - eapply main_step_tm; eauto.
+  - destruct (n_running s <? threads g); try discriminate. destruct (p_start_same _ _ _ E) as [A [_ [_ B]]].
+    unfold Tm in *. rewrite A, B. auto.
+  - destruct (p_handle_same _ _ _ _ E) as [A [_ [_ B]]]. unfold Tm in *. rewrite A, B. auto.
+  - destruct (p_finish_same _ _ _ _ E) as [A [_ [_ B]]]. unfold Tm in *. rewrite A, B. auto.
+  - destruct (p_finlock_same _ _ _ E) as [A [_ [_ B]]]. unfold Tm in *. rewrite A, B. auto.
+  - destruct (p_cancel_same _ _ _ E) as [A [_ [_ B]]]. unfold Tm in *. rewrite A, B. auto.
+  - inv_some. exact H.
+  - destruct (getc s c) as [x|]; try discriminate. destruct (eof x); try discriminate.
+    destruct (st x); inv_some; exact H.
+  - destruct (getc s c) as [x|]; try discriminate. destruct (eof x); try discriminate. inv_some. exact H.
+  - inv_some. exact H.
+  - inv_some. unfold Tm in *. simpl. destruct (mpc s); auto; lia.
+  - inv_some. exact H.
+Qed.
+
+Lemma reachable_tm : forall g s, reachable g s -> Tm s.
+Proof.
+  intros g s [ls H].
+  assert (G : forall ls s0, Tm s0 -> run g s0 ls = Some s -> Tm s).
+  { induction ls0; simpl; intros. inv_some; auto.
+    destruct (step g s0 a) as [s1|] eqn:E; simpl in *; try discriminate. apply (IHls0 s1); auto. eapply step_tm; eauto. }
+  apply (G ls (init g)); auto. unfold init. apply head_tm.
+Qed.
+
+(* An idle keep-alive connection is taken by the reaper (Keep -> Expiring, then closed) only when its deadline
+   has passed, and the deadline is the moment finish_request made it idle plus the keep-alive time. *)
+Theorem keepalive_not_before : forall g s l s' c x x', reachable g s -> step g s l = Some s' ->
+  (forall evs, l <> LMain evs true) ->
+  getc s c = Some x -> getc s' c = Some x' -> st x = CKeep -> st x' = CExpiring ->
+  tmo x <= clock s /\ tmo x = since x + keepalive g.
+Proof.
+  intros g s l s' c x x' R E Hni Hx Hx' Hk Hc. pose proof (reachable_tm _ _ R) as T. apply reachable_inv in R.
+  unfold getc in *.
+  assert (Hts : tmo x = since x + keepalive g).
+  { apply (i_tmo _ _ _ _ _ _ _ _ R c x Hx). rewrite Hk. auto. }
+  split; auto.
+  destruct l; simpl in E.
+  - destruct inl_. exfalso; eapply Hni; eauto. clear Hni.
+    unfold main_step in E. unfold Tm in T. destruct (mpc s) eqn:Hpc.
+    + destruct (evs_ok g s evs); try discriminate. inv_some. simpl in Hx'. congruence.
+    + destruct (backlog s) as [|c0 bl]; inv_some; simpl in Hx'. congruence.
+      upd_cases Hx' c. same_conn Hx Hx'. discriminate. congruence.
+    + destruct (mem c0 (regd s)); inv_some; simpl in Hx'; congruence.
+    + unfold rd_step in E. destruct (negb (mem c0 (regd s))). inv_some; simpl in Hx'; congruence.
+      unfold getc in E. destruct (nth_error (conns s) c0) as [x0|]. 2:{ inv_some; simpl in Hx'; congruence. }
+      destruct (inited x0 && negb (mem c0 (keep s))). inv_some; simpl in Hx'; congruence.
+      inv_some. destruct (inited x0); simpl in Hx'; upd_cases Hx' c; try congruence; same_conn Hx Hx'; discriminate.
+    + destruct (p_finlock s c0) as [s1|] eqn:E1; simpl in E; try discriminate. inv_some. simpl in Hx'.
+      unfold p_finlock, getc in E1. destruct (nth_error (conns s) c0) as [x0|] eqn:Hx0; try discriminate.
+      destruct (st x0) eqn:Hst0; try discriminate.
+      destruct (pclosed s || mem c0 (regd s)); inv_some; simpl in Hx'; upd_cases Hx' c; try congruence;
+        same_conn Hx Hx'; discriminate.
+    + destruct (orphan s); inv_some; simpl in Hx'; congruence.
+    + destruct (keep s) as [|c0 k].
+      * inv_some. rewrite head_conns in Hx'. congruence.
+      * unfold getc in E. destruct (nth_error (conns s) c0) as [x0|] eqn:Hx0. 2:{ inv_some; simpl in Hx'; congruence. }
+        destruct (now <? tmo x0) eqn:Hlt; inv_some; simpl in Hx'. congruence.
+        upd_cases Hx' c; try congruence. rewrite Hx in Hx0. inversion Hx0; subst x0.
+        apply Z.ltb_ge in Hlt. lia.
+    + inv_some. rewrite head_conns in Hx'. simpl in Hx'. congruence.
+    + inv_some. simpl in Hx'. upd_cases Hx' c; try congruence; same_conn Hx Hx'; discriminate.
+    + inv_some. simpl in Hx'. congruence.
+    + discriminate.
+    + discriminate.
+  - destruct (n_running s <? threads g); try discriminate. unfold p_start, getc in E.
+    destruct (nth_error (conns s) c0) as [x0|] eqn:Hx0; try discriminate. destruct (st x0); try discriminate.
+    inv_some. simpl in Hx'. upd_cases Hx' c; try congruence; same_conn Hx Hx'; discriminate.
+  - unfold p_handle, getc in E.
+    destruct (nth_error (conns s) c0) as [x0|] eqn:Hx0; try discriminate. destruct (st x0); try discriminate.
+    destruct (match pbuf x0 with [] => sockbuf x0 | _ :: _ => pbuf x0 end) as [|k rest].
+    + destruct (eof x0); try discriminate. inv_some. simpl in Hx'. upd_cases Hx' c; try congruence; same_conn Hx Hx'; discriminate.
+    + destruct k; inv_some; simpl in Hx'; upd_cases Hx' c; try congruence; same_conn Hx Hx'; discriminate.
+  - unfold p_finish, getc in E.
+    destruct (nth_error (conns s) c0) as [x0|] eqn:Hx0; try discriminate. destruct (st x0) eqn:Hst0; try discriminate.
+    destruct (ka && alive s); inv_some; simpl in Hx'; upd_cases Hx' c; try congruence; same_conn Hx Hx'; discriminate.
+  - unfold p_finlock, getc in E.
+    destruct (nth_error (conns s) c0) as [x0|] eqn:Hx0; try discriminate. destruct (st x0) eqn:Hst0; try discriminate.
+    destruct (pclosed s || mem c0 (regd s)); inv_some; simpl in Hx'; upd_cases Hx' c; try congruence; same_conn Hx Hx'; discriminate.
+  - unfold p_cancel, getc in E.
+    destruct (nth_error (conns s) c0) as [x0|] eqn:Hx0; try discriminate. destruct (st x0) eqn:Hst0; try discriminate.
+    inv_some. simpl in Hx'. upd_cases Hx' c; try congruence; same_conn Hx Hx'; discriminate.
+  - inv_some. simpl in Hx'. rewrite nth_error_app1 in Hx' by (apply nth_error_Some; congruence). congruence.
+  - unfold getc in E. destruct (nth_error (conns s) c0) as [x0|] eqn:Hx0; try discriminate. destruct (eof x0); try discriminate.
+    destruct (st x0); inv_some; try congruence; simpl in Hx'; upd_cases Hx' c; try congruence; same_conn Hx Hx'; simpl in *; congruence.
+  - unfold getc in E. destruct (nth_error (conns s) c0) as [x0|] eqn:Hx0; try discriminate. destruct (eof x0); try discriminate.
+    inv_some. simpl in Hx'. upd_cases Hx' c; try congruence; same_conn Hx Hx'; simpl in *; congruence.
+  - inv_some. simpl in Hx'. congruence.
+  - inv_some. simpl in Hx'. congruence.
+  - inv_some. simpl in Hx'. congruence.
+Qed.
